@@ -9,7 +9,7 @@ from fractions import Fraction as Fr
 
 import copy
 from .terms import (Poly, B, NAN, ZERO, ONE, INF, TRUE, FALSE, as_poly, bconst, bnot, band, bor, cmp_term,
-                    t_min, t_max, t_abs, t_app, b_app, t_div)
+                    t_min, t_max, t_abs, t_app, b_app, t_div, t_mod, t_idiv, t_tbl, t_shl)
 from . import interp as I
 
 
@@ -755,10 +755,24 @@ def m_option_filter(it, st, fr, t, args, ga):
     if not isinstance(clo, I.ClosureV):
         raise I.InterpError('Option::filter with non-closure')
     x = e.payload[1][0]
-    r = it.call_closure(st, clo, [I.RefV(st.new_cell(x))])
-    if not isinstance(r, I.BoolV):
-        raise I.InterpError('Option::filter predicate is not boolean: %r' % (r,))
-    return ('fork', [(r.b, some(x)), (bnot(r.b), none())])
+    xcell = st.new_cell(x)
+    try:
+        r = it.call_closure(st.fork(), clo, [I.RefV(xcell)])
+        if isinstance(r, I.BoolV):
+            return ('fork', [(r.b, some(x)), (bnot(r.b), none())])
+    except I.InterpError as ex:
+        if 'fork inside closure' not in str(ex):
+            raise
+    # a predicate that branches internally: follow every branch
+    states = []
+    for s2, r in closure_results(it, st, clo, [I.RefV(xcell)]):
+        if not isinstance(r, I.BoolV):
+            raise I.InterpError('Option::filter predicate is not boolean: %r' % (r,))
+        for cond, val in ((r.b, some(copy.deepcopy(x))), (bnot(r.b), none())):
+            s3 = s2.fork()
+            if s3.ctx.assume(cond) is not False:
+                states.append((s3, val))
+    return ('states', states)
 
 
 def m_option_copied(it, st, fr, t, args, ga):
@@ -822,6 +836,39 @@ def _closure_outcomes(it, st, clo, elem_value, extra_args=None):
         if o.status in ('panic', 'stuck'):
             raise I.InterpError('closure body %s: %s' % (o.status, o.panic_info))
     return [o for o in outs if o.status == 'probe-exit']
+
+
+def closure_results(it, st, clo, arg_values):
+    """run a closure body that may branch: [(state, return value)] on forked copies of `st` (the closure frame already
+    popped, ready to continue in the caller).  Panicking / stuck bodies raise."""
+    s2 = st.fork()
+    fn = it.facts.fns.get(clo.path)
+    if fn is None:
+        raise I.InterpError('closure body not in facts: %s' % clo.path)
+    sub = I.Frame(fn, fn, {}, len(s2.frames))
+    cl_cell = s2.new_cell(clo)
+    loc = fn.get('locals') or []
+    by_ref = not (len(loc) > 1 and loc[1]['ty'].get('k') != 'ref')
+    sub.locals[1] = s2.new_cell(I.RefV(cl_cell, (), True)) if by_ref else cl_cell
+    for i, a in enumerate(arg_values):
+        sub.locals[i + 2] = s2.new_cell(a)
+    prev_probe = getattr(st, 'probe', None)
+    s2.frames.append(sub)
+    s2.probe = (len(s2.frames) - 1, None, frozenset(range(len(fn['blocks']))))
+    outs = it.run(s2)
+    res = []
+    for o in outs:
+        if o.status in ('panic', 'stuck'):
+            raise I.InterpError('closure body %s: %s' % (o.status, o.panic_info))
+        if o.status != 'probe-exit':
+            continue
+        s3 = o.state
+        f3 = s3.frames.pop()
+        rv = s3.cells.get(f3.locals.get(0))
+        s3.probe = prev_probe
+        s3.status = 'running'
+        res.append((s3, rv if rv is not None else I.UnitV()))
+    return res
 
 
 def m_for_each(it, st, fr, t, args, ga):
@@ -1022,6 +1069,13 @@ def m_option_map(it, st, fr, t, args, ga):
     if v == 0:
         return none()
     if isinstance(clo, I.ClosureV):
+        try:
+            probe_state = st.fork()
+            it.call_closure(probe_state, clo, [copy.deepcopy(e.payload[1][0])])
+        except I.InterpError as ex:
+            if 'fork inside closure' not in str(ex):
+                raise
+            return ('states', [(s2, some(r)) for s2, r in closure_results(it, st, clo, [e.payload[1][0]])])
         return some(it.call_closure(st, clo, [e.payload[1][0]]))
     raise I.InterpError('Option::map with non-closure')
 
@@ -1054,6 +1108,36 @@ def m_fold(it, st, fr, t, args, ga):
                 raise
     if not isinstance(acc, I.Num):
         raise I.InterpError('fold with a non-numeric accumulator over a sequence of unknown length')
+    # selection folds: |a, b| max(a, b) / min(a, b) (written with Ord::max, an if, ...) fold to the running max / min over
+    # the sequence, in the same normal form as Iterator::max / min and the loop reductions
+    try:
+        sp = st.fork()
+        A = Poly.atom(('sym', sp.fresh_name('fold_a')))
+        ev = _elem_value(it, sp, c, sp.ctx.sym_range(sp.fresh_name('i'), 0, 2 ** 32, integer=True))
+        if isinstance(ev, I.Num):
+            sp.ctx.ranges[A.as_single_atom()] = sp.ctx.rng(ev.term)
+            if acc.ty in I.INT_RANGES:
+                sp.ctx.int_atoms.add(A.as_single_atom())
+            kinds = set()
+            for s2, r in closure_results(it, sp, clo, [I.Num(A, acc.ty), I.RefV(sp.new_cell(ev))]):
+                if not isinstance(r, I.Num):
+                    kinds.add(None)
+                elif r.term == t_max(A, ev.term, s2.ctx):
+                    kinds.add('max')
+                elif r.term == t_min(A, ev.term, s2.ctx):
+                    kinds.add('min')
+                elif r.term == A:
+                    kinds.add('max' if s2.ctx.decide(cmp_term('Le', ev.term, A)) is True else ('min' if s2.ctx.decide(cmp_term('Ge', ev.term, A)) is True else None))
+                elif r.term == ev.term:
+                    kinds.add('max' if s2.ctx.decide(cmp_term('Ge', ev.term, A)) is True else ('min' if s2.ctx.decide(cmp_term('Le', ev.term, A)) is True else None))
+                else:
+                    kinds.add(None)
+            if len(kinds) == 1 and None not in kinds:
+                term = it.fold_term(next(iter(kinds)), acc.term, c.term, st.ctx, c.len)
+                if term is not None:
+                    return I.Num(term, acc.ty)
+    except I.InterpError:
+        pass
     cur = st.ctx.rng(acc.term)
     last_outs = []
     for rounds in range(6):
@@ -1230,6 +1314,8 @@ def lazy_iter_model(it, st, cands, args):
     if isinstance(a0, I.LazyIterV):
         if name == 'next' and 'Iterator' in trait:
             return m_lazy_next
+        if name in ('any', 'all') and 'Iterator' in trait:
+            return m_lazy_any_all(name)
         if name == 'into_iter':
             return lambda it_, st_, fr_, t_, args_, ga_: args_[0]
     if name in ('into_iter', 'iter') and isinstance(a0, I.ArrV) and a0.items is not None:
@@ -1350,6 +1436,243 @@ def m_lazy_next(it, st, fr, t, args, ga):
         if len(states) > 64:
             raise I.InterpError('lazy iterator yields too many abstract elements')
     return ('states', states)
+
+
+
+# ---------------------------------------------------------------- more Option / integer / array vocabulary
+
+CF = 'core::ops::control_flow::ControlFlow'
+
+
+def m_option_branch(it, st, fr, t, args, ga):
+    """<Option<T> as Try>::branch (the `?` operator): Some(x) -> Continue(x), None -> Break(None)"""
+    e = args[0]
+    v = _known_variant(e)
+    if v == 1:
+        return I.EnumV(CF, 0, {0: [e.payload[1][0]]}, vnames=['Continue', 'Break'])
+    return I.EnumV(CF, 1, {1: [none()]}, vnames=['Continue', 'Break'])
+
+
+def m_option_from_residual(it, st, fr, t, args, ga):
+    return none()
+
+
+def m_unwrap_or_default(it, st, fr, t, args, ga):
+    e = args[0]
+    v = _known_variant(e)
+    if v == 1 and e.path.endswith('Option'):
+        return e.payload[1][0]
+    if e.path.endswith('Result'):
+        # Result<T, E>::unwrap_or_default: Ok is variant 0
+        if v == 0:
+            return e.payload[0][0]
+    dest_ty = it.local_ty(fr, t['dest'])
+    k = dest_ty.get('k')
+    if k in ('int', 'uint', 'float'):
+        return I.Num(ZERO, dest_ty.get('n'))
+    if k == 'bool':
+        return I.BoolV(FALSE)
+    if k == 'tuple' and not dest_ty.get('tys') and not dest_ty.get('args'):
+        return I.UnitV()
+    raise I.InterpError('unwrap_or_default for %r' % (dest_ty,))
+
+
+def m_map_or_else(it, st, fr, t, args, ga):
+    e, dclo, clo = args[0], args[1], args[2]
+    v = _known_variant(e)
+    if v == 0:
+        return it.call_closure(st, dclo, []) if isinstance(dclo, I.ClosureV) else _call_fn_value(it, st, dclo, [])
+    return it.call_closure(st, clo, [e.payload[1][0]]) if isinstance(clo, I.ClosureV) else _call_fn_value(it, st, clo, [e.payload[1][0]])
+
+
+def _call_fn_value(it, st, f, argv):
+    if isinstance(f, I.FnV) and f.path in it.facts.fns:
+        return it.call_fn_sync(st, f.path, argv)
+    raise I.InterpError('call of function value %r is not modelled' % (f,))
+
+
+def m_unwrap_or_else(it, st, fr, t, args, ga):
+    e, clo = args[0], args[1]
+    v = _known_variant(e)
+    if v == 1:
+        return e.payload[1][0]
+    return it.call_closure(st, clo, []) if isinstance(clo, I.ClosureV) else _call_fn_value(it, st, clo, [])
+
+
+def m_is_some_and(it, st, fr, t, args, ga):
+    e, clo = args[0], args[1]
+    v = _known_variant(e)
+    if v == 0:
+        return I.BoolV(FALSE)
+    return it.call_closure(st, clo, [e.payload[1][0]])
+
+
+def m_option_and_then(it, st, fr, t, args, ga):
+    e, clo = args[0], args[1]
+    v = _known_variant(e)
+    if v == 0:
+        return none()
+    return it.call_closure(st, clo, [e.payload[1][0]])
+
+
+def m_option_ok_or(it, st, fr, t, args, ga):
+    e = args[0]
+    v = _known_variant(e)
+    if v == 1:
+        return I.EnumV('core::result::Result', 0, {0: [e.payload[1][0]]}, vnames=['Ok', 'Err'])
+    return I.EnumV('core::result::Result', 1, {1: [args[1]]}, vnames=['Ok', 'Err'])
+
+
+def m_result_ok(it, st, fr, t, args, ga):
+    e = args[0]
+    v = _known_variant(e)
+    return some(e.payload[0][0]) if v == 0 else none()
+
+
+def m_div_euclid(it, st, fr, t, args, ga):
+    a, b = _num(args[0]), _num(args[1])
+    if st.ctx.rng(a.term)[0] >= 0 and st.ctx.rng(b.term)[0] > 0:
+        return I.Num(t_idiv(a.term, b.term, st.ctx), a.ty)
+    return it.opaque_result(st, {'k': 'uint', 'n': a.ty, 's': a.ty}, 'div_euclid')
+
+
+def m_rem_euclid(it, st, fr, t, args, ga):
+    a, b = _num(args[0]), _num(args[1])
+    if st.ctx.rng(a.term)[0] >= 0 and st.ctx.rng(b.term)[0] > 0:
+        return I.Num(t_mod(a.term, b.term, st.ctx), a.ty)
+    return it.opaque_result(st, {'k': 'uint', 'n': a.ty, 's': a.ty}, 'rem_euclid')
+
+
+def m_int_pow(it, st, fr, t, args, ga):
+    a, b = _num(args[0]), _num(args[1])
+    ac, bc = a.term.const_value(), b.term.const_value()
+    if ac is not None and bc is not None and bc >= 0 and bc == int(bc):
+        r = ac ** int(bc)
+        lo, hi = _int_bounds(a)
+        key = 'overflow:Pow@%s#%s' % (fr.fn['path'], it.site_ordinal(fr, fr.bb))
+        ok = lo <= r <= hi
+        st.obligations.append(I.Obligation('overflow:Pow', fr.fn['path'], t.get('span', ''), '%s.pow(%s)' % (ac, bc), 'discharged' if ok else 'violated', key))
+        if not ok:
+            return ('panic', 'attempt to multiply with overflow')
+        return I.Num(Poly.const(r), a.ty)
+    if ac == 2 and bc is None:
+        blo, bhi = st.ctx.rng(b.term)
+        if blo >= 0 and bhi <= 62:
+            return I.Num(t_shl(ONE, b.term, st.ctx), a.ty)
+    return it.opaque_result(st, {'k': 'uint', 'n': a.ty, 's': a.ty}, 'pow')
+
+
+def m_int_clamp(it, st, fr, t, args, ga):
+    x, lo, hi = _num(args[0]), _num(args[1]), _num(args[2])
+    ok = st.ctx.decide(cmp_term('Le', lo.term, hi.term))
+    key = 'panic@%s#%s' % (fr.fn['path'], it.site_ordinal(fr, fr.bb))
+    st.obligations.append(I.Obligation('panic-call', fr.fn['path'], t.get('span', ''), 'clamp: min <= max', 'discharged' if ok is True else ('violated' if ok is False else 'unknown'), key))
+    if ok is False:
+        return ('panic', 'assertion failed: min <= max')
+    return I.Num(t_min(t_max(x.term, lo.term, st.ctx, 'max'), hi.term, st.ctx, 'min'), x.ty)
+
+
+def m_checked_ilog2(it, st, fr, t, args, ga):
+    a = _num(args[0])
+    c = a.term.const_value()
+    if c is not None:
+        return some(I.Num(Poly.const(int(c).bit_length() - 1), 'u32')) if c > 0 else none()
+    lo, hi = st.ctx.rng(a.term)
+
+    def some_(it2, s2, f2):
+        r = s2.ctx.sym_range(s2.fresh_name('ilog2'), 0 if lo < 1 else int(lo).bit_length() - 1, 63 if hi == INF else max(int(hi).bit_length() - 1, 0), integer=True)
+        return some(I.Num(r, 'u32'))
+    return ('fork', [(cmp_term('Gt', a.term, 0), some_), (cmp_term('Le', a.term, 0), lambda it2, s2, f2: none())])
+
+
+def m_array_map(it, st, fr, t, args, ga):
+    arr, clo = args[0], args[1]
+    if not isinstance(arr, I.ArrV) or arr.items is None or not isinstance(clo, I.ClosureV):
+        raise I.InterpError('array::map on %r' % (arr,))
+    return I.ArrV(items=[it.call_closure(st, clo, [copy.deepcopy(x)]) for x in arr.items])
+
+
+def m_iter_once(it, st, fr, t, args, ga):
+    return I.LazyIterV('same', I.ArrV(items=[args[0]]))
+
+
+def m_option_into_iter(it, st, fr, t, args, ga):
+    e = args[0]
+    e = it.deref(st, e) if isinstance(e, I.RefV) else e
+    return I.LazyIterV('same', e)
+
+
+def m_slice_windows(it, st, fr, t, args, ga):
+    src = args[0]
+    src = it.deref(st, src) if isinstance(src, I.RefV) else src
+    size = _num(args[1]).term.const_value()
+    if size is None:
+        raise I.InterpError('windows with a symbolic size')
+    if isinstance(src, I.ArrV) and src.table:
+        n = len(it.facts.tables.get(src.table) or [])
+        return I.ContV('windows', ('tblwin', src.table), length=Poly.const(max(n - int(size) + 1, 0)), extra={'table': src.table, 'size': int(size)})
+    c = _cont(it, st, src)
+    return I.ContV('windows', ('win', c.term), length=c.len - (int(size) - 1), elem_ty=c.elem_ty, extra={'of': c, 'size': int(size)})
+
+
+def m_windows_nth(it, st, fr, t, args, ga):
+    w = it.deref(st, args[0]) if isinstance(args[0], I.RefV) else args[0]
+    if not isinstance(w, I.ContV) or w.kind != 'windows':
+        raise I.InterpError('nth on %r is not modelled' % (w,))
+    i = _num(args[1])
+    size = w.extra['size']
+
+    def some_(it2, s2, f2):
+        if 'table' in w.extra:
+            items = [I.Num(t_tbl(w.extra['table'], i.term + k, s2.ctx), 'f32') for k in range(size)]
+            return some(I.RefV(s2.new_cell(I.ArrV(items=items))))
+        c = w.extra['of']
+        view = I.ContV('slice', ('from', c.term, i.term), length=Poly.const(size), elem_ty=c.elem_ty, extra={})
+        return some(I.RefV(s2.new_cell(view)))
+    return ('fork', [(cmp_term('Lt', i.term, w.len), some_), (cmp_term('Ge', i.term, w.len), lambda it2, s2, f2: none())])
+
+
+
+def _lazy_all_items(it, st, v, depth=0):
+    """the complete item list of a lazy chain over explicit small sources (arrays, `once`, known Options), or None"""
+    v = it.deref(st, v) if isinstance(v, I.RefV) else v
+    if depth > 6:
+        return None
+    if isinstance(v, I.ArrV) and v.items is not None and len(v.items) <= 8:
+        return list(v.items)
+    if isinstance(v, I.EnumV) and v.path.endswith('::Option') and v.variant is not None:
+        return [v.payload[1][0]] if v.variant == 1 else []
+    if isinstance(v, I.LazyIterV):
+        if v.kind == 'same':
+            return _lazy_all_items(it, st, v.inner, depth + 1)
+        if v.kind == 'chain':
+            a, b = _lazy_all_items(it, st, v.inner, depth + 1), _lazy_all_items(it, st, v.other, depth + 1)
+            return None if a is None or b is None else a + b
+        if v.kind == 'map':
+            a = _lazy_all_items(it, st, v.inner, depth + 1)
+            return None if a is None else [it.call_closure(st, v.clo, [copy.deepcopy(x)]) for x in a]
+    return None
+
+
+def m_lazy_any_all(kind):
+    def m(it, st, fr, t, args, ga):
+        v = it.deref(st, args[0]) if isinstance(args[0], I.RefV) else args[0]
+        items = _lazy_all_items(it, st, v)
+        clo = args[1]
+        if items is None or not isinstance(clo, I.ClosureV):
+            raise I.InterpError('%s over %r is not modelled' % (kind, v))
+        # fold the predicate over the explicit items, following every branch of the predicate
+        states = [(st.fork(), FALSE if kind == 'any' else TRUE)]
+        for x in items:
+            nxt = []
+            for s_, acc in states:
+                for s2, r in closure_results(it, s_, clo, [copy.deepcopy(x)]):
+                    if not isinstance(r, I.BoolV):
+                        raise I.InterpError('%s predicate is not boolean' % kind)
+                    nxt.append((s2, bor(acc, r.b) if kind == 'any' else band(acc, r.b)))
+            states = nxt
+        return ('states', [(s_, I.BoolV(b)) for s_, b in states])
+    return m
 
 
 _NORM = [
@@ -1536,6 +1859,26 @@ def registry():
         'core::num::<impl i32>::checked_mul': m_checked('mul'),
         'core::f32::<impl f32>::recip': m_recip,
         'core::f32::<impl f32>::mul_add': m_mul_add,
+        'core::option::Option::<T>::map_or_else': m_map_or_else,
+        'core::option::Option::<T>::unwrap_or_default': m_unwrap_or_default,
+        'core::result::Result::<T, E>::unwrap_or_default': m_unwrap_or_default,
+        'core::option::Option::<T>::unwrap_or_else': m_unwrap_or_else,
+        'core::option::Option::<T>::is_some_and': m_is_some_and,
+        'core::option::Option::<T>::and_then': m_option_and_then,
+        'core::option::Option::<T>::ok_or': m_option_ok_or,
+        'core::result::Result::<T, E>::ok': m_result_ok,
+        '<core::option::Option<T> as core::ops::Try>::branch': m_option_branch,
+        '<core::option::Option<T> as core::ops::try_trait::Try>::branch': m_option_branch,
+        '<core::option::Option<T> as core::ops::FromResidual<core::option::Option<core::convert::Infallible>>>::from_residual': m_option_from_residual,
+        '<core::option::Option<T> as core::ops::try_trait::FromResidual<core::option::Option<core::convert::Infallible>>>::from_residual': m_option_from_residual,
+        'core::array::<impl [T; N]>::map': m_array_map,
+        'core::iter::once': m_iter_once,
+        'core::iter::sources::once::once': m_iter_once,
+        '<core::option::Option<T> as core::iter::IntoIterator>::into_iter': m_option_into_iter,
+        'core::option::Option::<T>::iter': m_option_into_iter,
+        'core::slice::<impl [T]>::windows': m_slice_windows,
+        "<core::slice::Windows<'a, T> as core::iter::Iterator>::nth": m_windows_nth,
+        "<core::slice::iter::Windows<'a, T> as core::iter::Iterator>::nth": m_windows_nth,
         'core::option::Option::<T>::map_or': m_map_or,
         'core::option::Option::<T>::is_some': m_is_some,
         'core::option::Option::<T>::is_none': m_is_none,
@@ -1636,6 +1979,12 @@ def registry():
             R.setdefault(base + 'abs_diff', m_abs_diff)
         for kind in ('trailing_zeros', 'leading_zeros', 'count_ones', 'count_zeros'):
             R.setdefault(base + kind, _bit_count_model(kind))
+        R.setdefault(base + 'div_euclid', m_div_euclid)
+        R.setdefault(base + 'rem_euclid', m_rem_euclid)
+        R.setdefault(base + 'pow', m_int_pow)
+        R.setdefault(base + 'checked_ilog2', m_checked_ilog2)
+        R.setdefault('<%s as core::cmp::Ord>::clamp' % ity, m_int_clamp)
+        R.setdefault('core::cmp::Ord::clamp', m_int_clamp)
     # Default::default of the primitive types (reached through #[derive(Default)] on private state structs)
     for ity in ('u8', 'u16', 'u32', 'u64', 'usize', 'i8', 'i16', 'i32', 'i64', 'isize'):
         R.setdefault('<%s as core::default::Default>::default' % ity, (lambda ty_: (lambda it, st, fr, t, args, ga: I.Num(ZERO, ty_)))(ity))
